@@ -35,10 +35,16 @@ type chunker struct {
 	maxAsked int
 	eofWith  bool // deliver the final bytes together with io.EOF
 	reads    int
+	emptyEvery int // every n-th Read hands out nothing and reports no error ("nothing happened", legal for an io.Reader)
+	empties    int
 }
 
 func (c *chunker) Read(p []byte) (int, error) {
 	c.reads++
+	if c.emptyEvery > 0 && c.reads%c.emptyEvery == 0 && len(c.data) > 0 && len(p) > 0 {
+		c.empties++
+		return 0, nil
+	}
 	if len(p) > c.maxAsked {
 		c.maxAsked = len(p)
 	}
@@ -185,6 +191,12 @@ func seqCase(c *core.Ctx, r *core.Rand, i int) {
 	sizes, sname := schedule(r, i%5, bounds)
 	// a boundary schedule is positional, not cyclic
 	ch := &chunker{data: append([]byte{}, stream...), sizes: sizes}
+	if i%5 != 4 && i%3 == 0 {
+		// a transport that now and then returns from Read with nothing (0 bytes, no error): nothing happened
+		ch.emptyEvery = 2 + r.Intn(5)
+		sname += "+empty-reads"
+		defer func() { c.Count("empty_reads_handed_out", int64(ch.empties)) }()
+	}
 	if i%5 == 4 {
 		ch.sizes = nil
 		pos := sizes
@@ -704,7 +716,7 @@ func Spec() *core.Spec {
 			"truncation at EVERY byte offset of messages up to 2 KB behind a complete message; announced lengths {max-16 .. max+8, 2*max, 2^31, 2^32-8, 2^32-1} for max in {64 KiB, 1 MiB} with consumed-byte, requested-size and TotalAlloc monitors; " +
 			"the last chunk delivered together with io.EOF; byte-wise delivery against a real server connection and a real client connection. every fifth item a bare padded scalar; all messages of a sequence re-read after the last Recv; small configured maxima (16..1024) with complete messages around them; one item in twelve a correctly delimited frame with an invalid type byte (Recv fails, consumes exactly the frame, later messages intact); distinct = distinct (segmentation, boundaries) / (size, offset class) combinations",
 		Assumptions: []string{"messages are compared as trees read back by the harness from the generic value", "alloc monitor: runtime.MemStats.TotalAlloc delta around a single-goroutine call, threshold 256 KiB"},
-		Required:    []string{"sequences", "recvs", "scalar_messages", "undecodable_frames_in_sequences", "odd_length_structures_in_sequences", "held_sends", "truncations.last-bytes-with-eof", "failed_sends", "sends_after_failed_sends", "small_limit_cases.over", "held_messages_rechecked", "truncations", "limit_cases.over", "limit_cases.within", "eof_with_data_cases", "e2e_server_messages", "e2e_client_messages", "segmentation.1-byte", "segmentation.one-read"},
+		Required:    []string{"sequences", "recvs", "scalar_messages", "undecodable_frames_in_sequences", "odd_length_structures_in_sequences", "held_sends", "empty_reads_handed_out", "truncations.last-bytes-with-eof", "failed_sends", "sends_after_failed_sends", "small_limit_cases.over", "held_messages_rechecked", "truncations", "limit_cases.over", "limit_cases.within", "eof_with_data_cases", "e2e_server_messages", "e2e_client_messages", "segmentation.1-byte", "segmentation.one-read"},
 		Families: []core.Family{
 			{Name: "sequences", N: nOf(20000, 800000), Run: seqCase},
 			{Name: "truncation", Exhaustive: true, N: nOf(8*6, 8*200), Run: truncCase},
